@@ -238,6 +238,17 @@ def main():
         else:
             with open(files[1], "wb") as fh:
                 fh.write(ftext.encode("latin-1"))
+    # rude solvers (C20_run): delete the input file / the result file before exiting
+    if cfg.get("rm_in") and len(files) >= 1:
+        try:
+            os.unlink(files[0])
+        except OSError:
+            pass
+    if cfg.get("rm_out") and len(files) >= 2:
+        try:
+            os.unlink(files[1])
+        except OSError:
+            pass
     return cfg.get("exit", 0)
 
 
